@@ -1,0 +1,28 @@
+//go:build verif
+// +build verif
+
+// Package verifhook provides yield points for the external verification harness.
+// With the build tag `verif` off every function here is an empty stub.
+package verifhook
+
+import "sync/atomic"
+
+// Enabled reports whether the hooks are compiled in
+const Enabled = true
+
+type callback func(name string, owner interface{}, arg interface{})
+
+var cb atomic.Value
+
+// Set registers the callback invoked at every Point; nil unregisters
+func Set(f func(name string, owner interface{}, arg interface{})) {
+	cb.Store(callback(f))
+}
+
+// Point is a named yield point; owner identifies the component instance
+func Point(name string, owner interface{}, arg interface{}) {
+	f, _ := cb.Load().(callback)
+	if f != nil {
+		f(name, owner, arg)
+	}
+}
